@@ -3,7 +3,8 @@
 Bounded model checking cannot prove termination of unbounded schedules.  Decided on the real code, within bounds:
 
   h1_* no lost notification      : WaitSlot register / wait_while / notify with a parker WITHOUT timeout, incl. the commit
-                                   loop's real predicate with cancel() and the finality publication (= C17 h1..h3)
+                                   loop's real predicate with cancel() and the finality publication (= C17 h1..h3); producer side:
+                                   the real finality loop announces every publication before it sleeps or returns (= C17 h6)
   h2_* no orphaned transaction   : from ANY state of the dependency graph satisfying its invariant every unfinished transaction
                                    completes under next()/remove()/commit(); each role re-establishes the invariant (= C16
                                    completion + single-role steps); committing tx k-1 releases tx k parked behind its own commit
@@ -68,7 +69,7 @@ def specs(tier):
     out = [Spec("h3_abort_releases_workers", build_h3(3), cfg=h3_cfg(3), unwind=4, timeout=600,
                 desc="real next() and run_commit_loop with the abort flag set, arbitrary cursor state", bounds={"n": 3})]
     for s in c17.specs(tier):
-        if s.name in ("h1_slot_spurious", "h2_two_conditions", "h3_commit_predicate_cancel"):
+        if s.name in ("h1_slot_spurious", "h2_two_conditions", "h3_commit_predicate_cancel", "h6_finality_announces_n3"):
             s.name = "h1_" + s.name
             out.append(s)
     for s in c16.specs(tier):
